@@ -31,8 +31,17 @@ def PSpec.termsToBuild (s : PSpec F E) (d : Data) : List TermKey :=
 
 variable (P : Params F E)
 
-/-- encoder dictionary of the spec being built × encoded-cache of the call × columns so far -/
-abbrev PEncSt (F E : Type) := Dict E × EncCache E × Except Err (List (ColInfo F E))
+/-- encoder dictionary of the spec being built × encoding caches of the call × columns so far -/
+abbrev PEncSt (F E : Type) := Dict E × Caches E × Except Err (List (ColInfo F E))
+
+/-- `dict.setdefault` with the cached state of the factor, if there is one -/
+def pRecordState (cell : Dict E) (esc : Dict E) (f : Factor) : Dict E :=
+  match esc f with
+  | none => cell
+  | some v =>
+    match cell f with
+    | some _ => cell
+    | none => cell.set f v
 
 def pEncodeFactor (d : Data) (kept : List Nat) (cache : Dict (List (String × F)))
     (st : PEncSt F E) (fr : Factor × Bool) : PEncSt F E :=
@@ -42,13 +51,15 @@ def pEncodeFactor (d : Data) (kept : List Nat) (cache : Dict (List (String × F)
     match cache fr.1 with
     | none => (st.1, st.2.1, .error .keyError)
     | some fits =>
-      match st.2.1 fr.1 fr.2 with
-      | some enc => (st.1, st.2.1, .ok (acc ++ [⟨fr.1, fr.2, fits, enc⟩]))
+      let c1 := pRecordState st.1 st.2.1.2 fr.1
+      match st.2.1.1 fr.1 fr.2 with
+      | some enc => (c1, st.2.1, .ok (acc ++ [⟨fr.1, fr.2, fits, enc⟩]))
       | none =>
-        let enc := match st.1 fr.1 with
+        let enc := match c1 fr.1 with
           | some v => v
           | none => P.encFit fr.1 d kept
-        (st.1.set fr.1 enc, st.2.1.set fr.1 fr.2 enc, .ok (acc ++ [⟨fr.1, fr.2, fits, enc⟩]))
+        (c1.set fr.1 enc, (st.2.1.1.set fr.1 fr.2 enc, st.2.1.2.set fr.1 enc),
+          .ok (acc ++ [⟨fr.1, fr.2, fits, enc⟩]))
 
 def pEncodeTerm (d : Data) (kept : List Nat) (cache : Dict (List (String × F)))
     (st : PEncSt F E) (k : TermKey) : PEncSt F E :=
@@ -60,7 +71,7 @@ def pEncodeTerm (d : Data) (kept : List Nat) (cache : Dict (List (String × F)))
     else (st.1, st.2.1, .error .keyError)
 
 /-- encoded-cache of the call × results so far -/
-abbrev PBuildSt (F E : Type) := EncCache E × Except Err (List (Part F E × PSpec F E))
+abbrev PBuildSt (F E : Type) := Caches E × Except Err (List (Part F E × PSpec F E))
 
 def pBuildOne (d : Data) (kept : List Nat) (cache : Dict (List (String × F)))
     (st : PBuildSt F E) (p : PSpec F E) : PBuildSt F E :=
@@ -77,7 +88,7 @@ def pBuildOne (d : Data) (kept : List Nat) (cache : Dict (List (String × F)))
         if P.encodingFails part then (r.2.1, .error .encoding)
         else (r.2.1, .ok (acc ++ [(part, { p with struct := some s, e := r.1 })]))
       | none =>
-        let s := newStructure P (p.termsToBuild d) r.2.1
+        let s := newStructure P (p.termsToBuild d) r.2.1.1
         (r.2.1, .ok (acc ++ [(⟨p.formula, p.cfg, d, kept, p.formula, cols, s⟩,
           { p with struct := some s, e := r.1 })]))
 
@@ -98,7 +109,7 @@ def pureCall (ss : List (PSpec F E)) (d : Data) (order : List Factor) :
       | .ok ev =>
         let kept := (List.range (P.nrows d)).filter fun i => !ev.drops i
         ((p0 :: ps).map fun p => { p with t := p.t.update ev.state }).foldl
-          (pBuildOne P d kept ev.cache) (fun _ _ => none, .ok []) |>.2
+          (pBuildOne P d kept ev.cache) (Caches.empty, .ok []) |>.2
     else .error .inconsistent
 
 def pApplyUpd (u : Upd) (s : PSpec F E) : PSpec F E :=
